@@ -5,7 +5,6 @@ package transfer
 // synctest bubble under the seeded scheduler.
 
 import (
-	"unicode/utf8"
 	"context"
 	"encoding/json"
 	"errors"
@@ -19,6 +18,7 @@ import (
 	"testing"
 	"testing/synctest"
 	"time"
+	"unicode/utf8"
 
 	"github.com/sheerbytes/sheerbytes/internal/verifsim"
 	"github.com/sheerbytes/sheerbytes/pkg/manifest"
@@ -57,13 +57,14 @@ type txSpec struct {
 	Damage      []txDamage        `json:"damage,omitempty"`
 	DamageAfter int               `json:"damage_after_run,omitempty"`
 	// sender knobs left at their defaults when zero
-	SmallThr  int64   `json:"small_threshold,omitempty"`
-	MediumThr int64   `json:"medium_threshold,omitempty"`
-	SmallFrac float64 `json:"small_slot_frac,omitempty"`
-	AgingMs   int     `json:"aging_after_ms,omitempty"`
-	Tail      uint32  `json:"resume_verify_tail,omitempty"`
-	SlowHashMs int    `json:"receiver_hash_read_takes_ms,omitempty"` // slow disk under the receiver's verification hash
-	EnumFault   bool              `json:"enumerate_fault_position,omitempty"`
+	SmallThr    int64   `json:"small_threshold,omitempty"`
+	MediumThr   int64   `json:"medium_threshold,omitempty"`
+	SmallFrac   float64 `json:"small_slot_frac,omitempty"`
+	AgingMs     int     `json:"aging_after_ms,omitempty"`
+	Tail        uint32  `json:"resume_verify_tail,omitempty"`
+	SlowHashMs  int     `json:"receiver_hash_read_takes_ms,omitempty"`   // slow disk under the receiver's verification hash
+	SlowWriteMs int     `json:"receiver_chunk_write_takes_ms,omitempty"` // ... and under its chunk writes: the transfer spans simulated time
+	EnumFault   bool    `json:"enumerate_fault_position,omitempty"`
 }
 
 // txLink is one interrupted run of a history.
@@ -178,10 +179,13 @@ func runEpisode(cfg epCfg) (ep *epResult) {
 			s = verifsim.New(cfg.seed, sp.Strat)
 			s.FS = verifsim.NewFS()
 			s.FS.OnOp = trackOps
-			if sp.SlowHashMs > 0 {
+			if sp.SlowHashMs > 0 || sp.SlowWriteMs > 0 {
 				s.FS.Delay = func(op *verifsim.FSOp) time.Duration {
 					if op.Node == "R" && strings.HasPrefix(op.Site, "hashFileChunk") {
 						return time.Duration(sp.SlowHashMs) * time.Millisecond
+					}
+					if op.Node == "R" && op.Kind == "writeat" && !strings.Contains(op.Path, ".thruflux_resumedata") {
+						return time.Duration(sp.SlowWriteMs) * time.Millisecond
 					}
 					return 0
 				}
@@ -787,6 +791,29 @@ func (h txHarness) Gen(r *verifsim.SplitMix, tier string, idx int) any {
 			f := r.Intn(8)
 			sp.Damage = append(sp.Damage, txDamage{Kind: "synthetic", File: f, Arg: r.Intn(1 << 20)}, txDamage{Kind: "tear_highest", File: f, Arg: r.Intn(1 << 20)})
 		}
+		if r.Chance(1, 2) {
+			// the receiver's report is late: the sender's grace period ends, it starts without
+			// the report, and the report arrives while the file is under way (the receiver's
+			// slow chunk writes make the transfer span simulated time)
+			sp.SlowHashMs = []int{320, 400, 700, 1200}[r.Intn(4)]
+			sp.SlowWriteMs = []int{0, 15, 40, 120}[r.Intn(4)]
+			if r.Chance(3, 4) {
+				// ... with something left to hand out when it arrives: the files have
+				// 6-35 chunks, the receiver's disk is slow and the stream window holds about
+				// two chunks, so that the sender is paced by the receiver
+				if sp.Chunk > 1024 {
+					sp.Chunk = []uint32{64, 512, 1000}[r.Intn(3)]
+				}
+				if sp.Chunk >= 64 {
+					for fi := range sp.Files {
+						sp.Files[fi].N = int(sp.Chunk)*(6+r.Intn(30)) + r.Intn(int(sp.Chunk))
+					}
+					sp.SlowWriteMs = []int{15, 40, 120}[r.Intn(3)]
+					sp.Window = int(sp.Chunk)*(1+r.Intn(3)) + 64
+					sp.Streams = 1 + r.Intn(3)
+				}
+			}
+		}
 	}
 	return sp
 }
@@ -1094,12 +1121,13 @@ func (h txHarness) Run(spec any) (res verifsim.RunResult) {
 			res.Skipped = true
 			break
 		}
-		resendsSeen, verificationsFailed = 0, 0
+		resendsSeen, verificationsFailed, reportsMidFile = 0, 0, 0
 		for _, e := range checkDispatch(&sp, ep, bothOK) {
 			v("dispatch", e[0], e[1])
 		}
 		res.Counters["resends_observed"] += int64(resendsSeen)
 		res.Counters["verification_failures_expected"] += int64(verificationsFailed)
+		res.Counters["reports_written_while_the_file_was_under_way"] += int64(reportsMidFile)
 	}
 	return
 }
@@ -1307,6 +1335,41 @@ func checkDispatch(sp *txSpec, ep *epResult, success bool) [][2]string {
 			}
 		}
 	}
+	// a file the sender has ended: every chunk went out or was advertised as present
+	// (fault-free runs: nothing else can end a file), whatever the transfer's outcome
+	firstChunkStart := map[uint64]int{}
+	for _, f := range ep.frames {
+		if !f.headerOnly {
+			if st, ok := firstChunkStart[f.key]; !ok || f.stepStart < st {
+				firstChunkStart[f.key] = f.stepStart
+			}
+		}
+	}
+	for _, e := range ep.sw.ends {
+		for _, in := range ep.rw.infos {
+			if st, ok := firstChunkStart[e.key]; ok && in.StreamID == e.key && in.step > st && in.step < e.step {
+				reportsMidFile++
+				break
+			}
+		}
+	}
+	if !success {
+		for k, it := range keyOf {
+			if begins[k] != 1 || ends[k] != 1 || chunkOf[k] == 0 {
+				continue
+			}
+			total := chunkTotalRef(it.Size, chunkOf[k])
+			for i := uint32(0); i < total; i++ {
+				if count[ck{k, i}] == 0 {
+					if bm := advertised[k]; bm != nil && bm.Get(int(i)) {
+						continue
+					}
+					bad("needed-chunk-never-sent", fmt.Sprintf("%s chunk %d neither written nor advertised as present, and the file was ended", it.RelPath, i))
+					break
+				}
+			}
+		}
+	}
 	if success {
 		for k, it := range keyOf {
 			if begins[k] != 1 {
@@ -1355,6 +1418,9 @@ func checkDispatch(sp *txSpec, ep *epResult, success bool) [][2]string {
 
 // verificationsFailed counts resumed files whose verification point was a chunk the harness had torn (reach probe).
 var verificationsFailed int
+
+// reportsMidFile counts files whose resume report was written after the sender's first chunk and before its FileEnd (reach probe).
+var reportsMidFile int
 
 // resendsSeen counts verified chunks observed twice on the wire (reach probe).
 var resendsSeen int
